@@ -84,6 +84,7 @@ fn op_strategy() -> BoxedStrategy<Op> {
 
 fn corpus_case(t: Tier) -> BoxedStrategy<Case> {
     let mut files = corpus_files();
+    // heavy files: thorough tier only, and there the case count is small
     if t == Tier::Quick {
         files.retain(|f| !HEAVY.contains(&f.as_str()) && f != "issue_188_2.xlsx");
     }
@@ -479,7 +480,7 @@ fn subs() -> Vec<Box<dyn DynSub>> {
         Box::new(Sub {
             name: "corpus",
             strategy: corpus_case,
-            cases: (6, 600),
+            cases: (6, 80),
             check,
             max_shrink_iters: 400,
         }),
